@@ -26,7 +26,7 @@ AUDIT_FILE = "PyYetiVerif/Audit/C18.lean"
 THEOREMS = [
     "PyYetiVerif.C18." + n
     for n in (
-        "base_sets_disjoint superset_is_union superset_is_union_bitwise user_sets_separate inSet_subword table_partition mksetpv_refuses_iff mksetpv_spec mksetpv_named expanddof_digits expanddof2_spec lookup_sound lookup_complete mkdofpv_strict_iff mkdofpv_spec mkdofpv_positions mkdofpv_set mat_intersect_spec find_subseq_spec list_intersect_spec flippv_spec index2bool_spec normIndex_spec"
+        "base_sets_disjoint superset_is_union superset_is_union_bitwise user_sets_separate inSet_subword table_partition mksetpv_refuses_iff mksetpv_spec mksetpv_named expanddof_digits expanddof2_spec lookup_sound lookup_complete mkdofpv_strict_iff mkdofpv_spec mkdofpv_positions mkdofpv_set mat_intersect_spec find_subseq_spec list_intersect_spec flippv_spec index2bool_spec normIndex_spec find_vals_spec find_rows_spec find_unique_spec"
     ).split()
 ]
 TRUSTED = [
@@ -51,14 +51,15 @@ RULE = (
 )
 ASSUMPTIONS = [
     "nasset words and ids are non-negative integers below 2^63 (int64 column); (id, dof) keys of a table are distinct",
-    "locate inputs are integers (exact in float64 when a routine converts)",
+    "locate inputs are integers or dyadic floats k/4 (also float32 / int32 / mixed dtypes), so every float comparison is exact",
 ]
 PARTIAL = (
     "proved: lattice (generated table), mksetpv, expanddof, mkdofpv, mat_intersect, find_subseq, list_intersect, "
-    "flippv, index2bool. NOT proved (exact model + correspondence + oracle only): find_duplicates_spec "
-    "(dups[i] iff another value within tol), index2slice_spec (slice <-> arithmetic progression, with the pySlice "
-    "model of CPython slicing), merge_lists_spec (pv equations, list1 order kept), make_uset nasset spreading. "
-    "Not modelled: find_unique, find_vals, find_rows, upasetpv/upqsetpv"
+    "flippv, index2bool, find_vals, find_rows, find_unique. NOT proved (exact model + correspondence + oracle only): "
+    "find_duplicates_spec (dups[i] iff another value within tol), index2slice_spec (slice <-> arithmetic "
+    "progression, with the pySlice model of CPython slicing), merge_lists_spec (pv equations, list1 order kept), "
+    "make_uset nasset spreading. Float / mixed int-float inputs are dyadic (k/4) and modelled over scaled Int; "
+    "non-dyadic floats (rounding in tol*max, correlate) are outside the exact model. Not modelled: upasetpv/upqsetpv"
 )
 MANIFEST = {
     "level_text": "proof: lattice theorems decided on the table generated from the source; mksetpv/mkdofpv/"
@@ -549,10 +550,135 @@ def _locate_streams(ctx, cs):
                nontrivial=br.endswith("found"), branch=br)
 
 
+# ---- float and mixed int/float inputs (dyadic k/4: every comparison is exact) ---------------
+SCALE = 4
+_DTYPES_F = ["float64", "float64", "float32"]
+_DTYPES_I = ["int64", "int64", "int32"]
+
+
+def _arr(scaled, dtype):
+    """numpy array with the given dtype from values scaled by 4 (int dtypes get multiples of 4)"""
+    a = np.array(scaled, dtype=np.float64) / SCALE
+    if dtype.startswith("int"):
+        return a.astype(dtype)
+    a = a.astype(dtype)
+    if a.size and dtype == "float64":
+        a = np.where(a == 0, -0.0, a) if a.ndim and np.random.default_rng(len(scaled)).random() < 0.3 else a
+    return a
+
+
+def _gen_scaled(rng, kind, shape, lo=-2, hi=3):
+    """values*4; kind 'i' = integers only, 'f' = quarters"""
+    n = int(np.prod(shape)) if shape else 0
+    if kind == "i":
+        flat = [SCALE * rng.randint(lo, hi) for _ in range(n)]
+    else:
+        flat = [rng.randint(SCALE * lo, SCALE * hi) if rng.random() < 0.7 else SCALE * rng.randint(lo, hi) for _ in range(n)]
+    if len(shape) == 1:
+        return flat
+    return [flat[i * shape[1]:(i + 1) * shape[1]] for i in range(shape[0])]
+
+
+def _float_streams(ctx, cs):
+    n2p, locate = _mods()
+    rng = ctx.rng
+    N = ctx.pick(500, 5000)
+    fm = lambda D: " ; ".join(_s(r_) for r_ in D)
+    for k in range(N):
+        # mat_intersect: int vs float, float vs float, 1-D and 2-D, keep 0/1/2
+        keep = rng.choice([0, 1, 2])
+        k1, k2 = rng.choice(["if", "fi", "ff", "if", "fi"])
+        dt1 = rng.choice(_DTYPES_I if k1 == "i" else _DTYPES_F)
+        dt2 = rng.choice(_DTYPES_I if k2 == "i" else _DTYPES_F)
+        if rng.random() < 0.45:
+            s1, s2 = _gen_scaled(rng, k1, (rng.randint(0, 7),)), _gen_scaled(rng, k2, (rng.randint(0, 7),))
+            R1, R2, c = [[x] for x in s1], [[x] for x in s2], 1
+        else:
+            c = rng.randint(1, 3)
+            s1 = _gen_scaled(rng, k1, (rng.randint(1, 7), c), 0, 2)
+            s2 = _gen_scaled(rng, k2, (rng.randint(1, 7), c), 0, 2)
+            R1, R2 = s1, s2
+        a1, a2 = _arr(s1, dt1), _arr(s2, dt2)
+        r = _call(locate.mat_intersect, a1, a2, keep)
+        if r[0] == "ok":
+            pv1, pv2 = _il(r[1][0]), _il(r[1][1])
+            sw = not ((keep == 0 and len(R1) <= len(R2)) or keep == 1)
+            bad_index = any(not 0 <= i < len(R1) for i in pv1) or any(not 0 <= i < len(R2) for i in pv2)
+            if not bad_index:
+                if sw:
+                    pv1 = _first_rows(R1, pv1)
+                else:
+                    pv2 = _first_rows(R2, pv2)
+            impl = "ok %s | %s" % (_s(pv1), _s(pv2))
+            br = "mat_intersect-mixed:" + ("empty" if not pv1 else "some")
+        else:
+            impl, br = r[0], "mat_intersect-mixed:" + r[0]
+        cs.add("mat_intersect-mixed", "matint %d %d %d | %s | %s" % (keep, c, c, fm(R1), fm(R2)), impl,
+               {"D1": s1, "D2": s2, "dt1": dt1, "dt2": dt2, "keep": keep, "scaled_by": SCALE},
+               nontrivial=br.endswith("some"), branch=br)
+        if k1 != k2:
+            ctx.count("mat_intersect-mixed:int-vs-float")
+        # find_duplicates on floats with float tol
+        v = _gen_scaled(rng, rng.choice("if"), (rng.choice([0, 1, 2, 3, 6, 12]),), -3, 4)
+        tol = rng.choice([0, 0, 1, 2, 4])  # scaled: 0, .25, .5, 1
+        dt = rng.choice(_DTYPES_F)
+        r = _call(locate.find_duplicates, _arr(v, dt), tol / SCALE)
+        impl = ("ok " + _s(r[1])).strip() if r[0] == "ok" else r[0]
+        cs.add("find_duplicates-float", "dups %d | %s" % (tol, _s(v)), impl,
+               {"v": v, "tol": tol, "dt": dt, "scaled_by": SCALE}, nontrivial=r[0] == "ok" and any(r[1]),
+               branch="dups-float:" + ("some" if r[0] == "ok" and any(r[1]) else "none" if r[0] == "ok" else r[0]))
+        # find_subseq on floats / mixed
+        ks, kb = rng.choice(["ff", "if", "fi"])
+        seq = [SCALE * x // 2 * (1 if ks == "f" else 2) for x in _gen_intlist(rng, 0, 2, 12)]
+        sub = [SCALE * x // 2 * (1 if kb == "f" else 2) for x in _gen_intlist(rng, 0, 2, 3)]
+        r = _call(locate.find_subseq, _arr(seq, "int64" if ks == "i" else "float64"), _arr(sub, "int64" if kb == "i" else "float64"))
+        impl = ("ok " + _s(r[1])).strip() if r[0] == "ok" else r[0]
+        cs.add("find_subseq-float", "subseq | %s | %s" % (_s(seq), _s(sub)), impl,
+               {"seq": seq, "subseq": sub, "dts": ks + kb, "scaled_by": SCALE},
+               nontrivial=r[0] == "ok" and len(r[1]) > 0, branch="find_subseq-float")
+        # list_intersect on mixed Python numbers (2 == 2.0 is one item)
+        def pylist(sc):
+            return [(x // SCALE if x % SCALE == 0 and rng.random() < 0.5 else x / SCALE) for x in sc]
+        l1, l2 = _gen_scaled(rng, "f", (rng.randint(0, 6),), 0, 2), _gen_scaled(rng, "f", (rng.randint(0, 6),), 0, 2)
+        r = _call(locate.list_intersect, pylist(l1), pylist(l2))
+        impl = "ok %s | %s" % (_s(r[1][0]), _s(r[1][1])) if r[0] == "ok" else r[0]
+        cs.add("list_intersect-mixed", "lint | %s | %s" % (_s(l1), _s(l2)), impl,
+               {"L1": l1, "L2": l2, "scaled_by": SCALE}, nontrivial=r[0] == "ok" and len(r[1][0]) > 0,
+               branch="list_intersect-mixed")
+        # find_vals / find_rows / find_unique
+        c = rng.randint(1, 3)
+        km = rng.choice("if")
+        M = _gen_scaled(rng, km, (rng.randint(1, 5), c), 0, 2)
+        vv = _gen_scaled(rng, rng.choice("if"), (rng.randint(0, 3),), 0, 2)
+        dtm = "int64" if km == "i" else "float64"
+        r = _call(locate.find_vals, _arr(M, dtm), _arr(vv, "float64"))
+        impl = ("ok " + _s(r[1])).strip() if r[0] == "ok" else r[0]
+        cs.add("find_vals", "fvals | %s | %s" % (fm(M), _s(vv)), impl, {"m": M, "v": vv, "scaled_by": SCALE},
+               nontrivial=r[0] == "ok" and any(r[1]), branch="find_vals")
+        row = list(rng.choice(M)) if rng.random() < 0.6 else _gen_scaled(rng, "f", (c if rng.random() < 0.85 else c + 1,), 0, 2)
+        r = _call(locate.find_rows, _arr(M, dtm), _arr(row, "float64"))
+        impl = ("ok " + _s(r[1])).strip() if r[0] == "ok" else r[0]
+        cs.add("find_rows", "frows %d | %s | %s" % (c, fm(M), _s(row)), impl, {"matrix": M, "row": row, "scaled_by": SCALE},
+               nontrivial=r[0] == "ok" and len(r[1]) and any(r[1]),
+               branch="find_rows:" + ("other-length" if len(row) != c else "ok"))
+        ky = rng.choice("if")
+        y = _gen_scaled(rng, ky, (rng.choice([0, 1, 2, 3, 5, 8]),), -2, 3)
+        if rng.random() < 0.3:
+            y = [y[0]] * len(y) if y else y
+        tn, td = rng.choice([(1, 1000000), (1, 1000000), (0, 1), (1, 4), (1, 2), (1, 1)])
+        args = (_arr(y, "int64" if ky == "i" and rng.random() < 0.5 else "float64"),) + (() if (tn, td) == (1, 1000000) and rng.random() < 0.5 else (tn / td,))
+        r = _call(locate.find_unique, *args)
+        impl = ("ok " + _s(r[1])).strip() if r[0] == "ok" else r[0]
+        cs.add("find_unique", "funique %d %d | %s" % (tn, td, _s(y)), impl, {"y": y, "tol": [tn, td], "scaled_by": SCALE},
+               nontrivial=r[0] == "ok" and not all(r[1]),
+               branch="find_unique:" + ("ok" if r[0] == "ok" else r[0]))
+
+
 def correspondence(ctx):
     cs = Cases(ctx)
     _uset_streams(ctx, cs)
     _locate_streams(ctx, cs)
+    _float_streams(ctx, cs)
     rep = ctx.driver("C18").ask([it[1] for it in cs.items])
     for (stream, line, impl, inp, nontriv, branch), got in zip(cs.items, rep):
         ctx.case(line, nontrivial=nontriv, branch=branch)
@@ -578,6 +704,9 @@ def correspondence(ctx):
         "index2slice:slice", "index2slice:pv", "index2slice:value-error",
         "mat_intersect:some", "mat_intersect:empty",
         "find_subseq:found", "find_subseq:longer", "find_subseq:value-error",
+        "mat_intersect-mixed:some", "mat_intersect-mixed:empty", "mat_intersect-mixed:int-vs-float",
+        "dups-float:some", "find_subseq-float", "list_intersect-mixed", "find_vals",
+        "find_rows:ok", "find_rows:other-length", "find_unique:ok", "find_unique:value-error",
     ])
 
 
@@ -736,7 +865,10 @@ def _oracle_locate(ctx, kind, inp):
     _, locate = _mods()
     if kind == "dups":
         v, tol = inp["v"], inp["tol"]
-        r = _call(locate.find_duplicates, v, tol)
+        if "scaled_by" in inp:
+            r = _call(locate.find_duplicates, _arr(v, inp.get("dt", "float64")), tol / inp["scaled_by"])
+        else:
+            r = _call(locate.find_duplicates, v, tol)
         want = [int(any(j != i and abs(v[j] - v[i]) <= tol for j in range(len(v)))) for i in range(len(v))]
         if r[0] != "ok" or _il(r[1]) != want:
             fam = "find-duplicates-fewer-than-two-values" if len(v) < 2 else "find-duplicates-wrong-flags"
@@ -744,7 +876,11 @@ def _oracle_locate(ctx, kind, inp):
                      r[0] if r[0] != "ok" else _il(r[1]), want)
     elif kind == "matint":
         D1, D2, keep = inp["D1"], inp["D2"], inp["keep"]
-        r = _call(locate.mat_intersect, D1, D2, keep)
+        if "scaled_by" in inp:  # dyadic float / mixed-dtype input, stored scaled
+            c1, c2 = _arr(D1, inp["dt1"]), _arr(D2, inp["dt2"])
+        else:
+            c1, c2 = D1, D2
+        r = _call(locate.mat_intersect, c1, c2, keep)
         A1 = np.atleast_2d(np.array(D1)).T if np.ndim(D1) == 1 == np.ndim(D2) else np.atleast_2d(np.array(D1))
         A2 = np.atleast_2d(np.array(D2)).T if np.ndim(D1) == 1 == np.ndim(D2) else np.atleast_2d(np.array(D2))
         r1, r2 = [tuple(x) for x in A1.tolist()], [tuple(x) for x in A2.tolist()]
@@ -754,6 +890,9 @@ def _oracle_locate(ctx, kind, inp):
         wantN = [k for k, x in enumerate(needles) if same_cols and x in hay]
         empty_hay = len(hay) == 0 and len(needles) > 0
         fam = "mat-intersect-empty-haystack" if empty_hay else "mat-intersect-keep%d" % keep
+        if "scaled_by" in inp and not empty_hay:
+            kinds = "".join("i" if inp[k].startswith("int") else "f" for k in ("dt1", "dt2"))
+            fam = "mat-intersect-%s-keep%d" % ({"if": "int-vs-float", "fi": "float-vs-int", "ff": "float", "ii": "int"}[kinds], keep)
         if r[0] != "ok":
             ctx.fail(fam, "mat_intersect raises %s" % r[0], dict(inp, kind=kind), r[0], "two index vectors")
             return
@@ -776,7 +915,12 @@ def _oracle_locate(ctx, kind, inp):
                 pass
             else:
                 return
-        r = _call(locate.find_subseq, seq, sub)
+        if "scaled_by" in inp:
+            dts = inp.get("dts", "ff")
+            r = _call(locate.find_subseq, _arr(seq, "int64" if dts[0] == "i" else "float64"),
+                      _arr(sub, "int64" if dts[1] == "i" else "float64"))
+        else:
+            r = _call(locate.find_subseq, seq, sub)
         want = [k for k in range(len(seq) - len(sub) + 1) if seq[k : k + len(sub)] == sub] if sub else []
         if r[0] != "ok" or _il(r[1]) != want:
             fam = "find-subseq-longer-than-seq" if len(sub) > len(seq) else "find-subseq-wrong-positions"
@@ -818,6 +962,31 @@ def _oracle_locate(ctx, kind, inp):
         if r[0] != "ok" or [_il(r[1][0]), _il(r[1][1])] != want:
             ctx.fail("list-intersect-wrong", "[L1[i] for i in pv1] == [L2[i] for i in pv2], every common item once, L1 order",
                      dict(inp, kind=kind), r[0] if r[0] != "ok" else [_il(r[1][0]), _il(r[1][1])], want)
+    elif kind == "fvals":
+        M, v = inp["m"], inp["v"]
+        r = _call(locate.find_vals, _arr(M, "float64"), _arr(v, "float64"))
+        flat = [M[i][j] for j in range(len(M[0])) for i in range(len(M))]
+        want = [int(x in v) for x in flat]
+        if r[0] != "ok" or _il(r[1]) != want:
+            ctx.fail("find-vals-wrong", "pv must mark (column-major) the entries of m that occur in v", dict(inp, kind=kind),
+                     r[0] if r[0] != "ok" else _il(r[1]), want)
+    elif kind == "frows":
+        M, row = inp["matrix"], inp["row"]
+        r = _call(locate.find_rows, _arr(M, "float64"), _arr(row, "float64"))
+        want = [int(list(x) == list(row)) for x in M] if len(row) == len(M[0]) else []
+        if r[0] != "ok" or _il(r[1]) != want:
+            ctx.fail("find-rows-wrong", "pv must mark exactly the rows equal to `row`", dict(inp, kind=kind),
+                     r[0] if r[0] != "ok" else _il(r[1]), want)
+    elif kind == "funique":
+        y, (tn, td) = inp["y"], inp["tol"]
+        if len(y) < 2:
+            return  # fewer than two values: max() of an empty difference vector (outside the documented use)
+        r = _call(locate.find_unique, _arr(y, "float64"), tn / td)
+        d = [abs(b - a) for a, b in zip(y, y[1:])]
+        want = [1] + [int(x * td > tn * max(d)) for x in d]
+        if r[0] != "ok" or _il(r[1]) != want:
+            ctx.fail("find-unique-wrong", "pv[0] = True, pv[i] = |y[i]-y[i-1]| > tol*max|diff|", dict(inp, kind=kind),
+                     r[0] if r[0] != "ok" else _il(r[1]), want)
     elif kind == "merge":
         l1, l2 = inp["list1"], inp["list2"]
         r = _call(locate.merge_lists, list(l1), list(l2))
@@ -854,7 +1023,7 @@ def _run_one(ctx, inp):
         _oracle_dofpv(ctx, inp["rows"], inp["nasset"], inp["set"], inp["dof"], inp["strict"], inp.get("grids_only", True))
     elif k == "expand":
         _oracle_expand(ctx, inp["dof"])
-    elif k in ("dups", "matint", "subseq", "flip", "i2s", "lint", "merge"):
+    elif k in ("dups", "matint", "subseq", "flip", "i2s", "lint", "merge", "fvals", "frows", "funique"):
         _oracle_locate(ctx, k, inp)
 
 
@@ -864,8 +1033,20 @@ def _hint_to_input(h):
     try:
         if s == "expanddof" and i["dof"] and isinstance(i["dof"][0], list) and len(i["dof"][0]) == 2:
             return {"kind": "expand", "dof": i["dof"]}
-        if s == "find_duplicates":
+        if s in ("find_duplicates", "find_duplicates-float"):
             return dict(i, kind="dups")
+        if s == "mat_intersect-mixed":
+            return dict(i, kind="matint")
+        if s == "find_subseq-float":
+            return dict(i, kind="subseq")
+        if s == "find_vals":
+            return dict(i, kind="fvals")
+        if s == "find_rows":
+            return dict(i, kind="frows")
+        if s == "find_unique":
+            return dict(i, kind="funique")
+        if s == "list_intersect-mixed":
+            return dict(i, kind="lint")
         if s == "mat_intersect":
             return dict(i, kind="matint")
         if s == "find_subseq":
@@ -956,6 +1137,30 @@ def search(ctx, hints):
             l1, l2 = list(dict.fromkeys(l1)), list(dict.fromkeys(l2))
         _oracle_locate(ctx, "merge", {"list1": l1, "list2": l2})
         ctx.count("oracle:locate", 7)
+        # float / mixed-dtype inputs (dyadic, stored scaled by 4)
+        k1, k2 = rng.choice(["if", "fi", "ff"])
+        if rng.random() < 0.5:
+            s1, s2 = _gen_scaled(rng, k1, (rng.randint(0, 6),)), _gen_scaled(rng, k2, (rng.randint(0, 6),))
+        else:
+            c = rng.randint(1, 3)
+            s1, s2 = _gen_scaled(rng, k1, (rng.randint(1, 6), c), 0, 2), _gen_scaled(rng, k2, (rng.randint(1, 6), c), 0, 2)
+        _oracle_locate(ctx, "matint", {"D1": s1, "D2": s2, "keep": rng.choice([0, 1, 2]), "scaled_by": SCALE,
+                                       "dt1": rng.choice(_DTYPES_I if k1 == "i" else _DTYPES_F),
+                                       "dt2": rng.choice(_DTYPES_I if k2 == "i" else _DTYPES_F)})
+        _oracle_locate(ctx, "dups", {"v": _gen_scaled(rng, "f", (rng.choice([0, 1, 2, 5, 9]),), -2, 3),
+                                     "tol": rng.choice([0, 1, 2, 4]), "scaled_by": SCALE, "dt": "float64"})
+        dts = rng.choice(["ff", "if", "fi"])
+        _oracle_locate(ctx, "subseq", {"seq": [(4 if dts[0] == "i" else 2) * x for x in _gen_intlist(rng, 0, 2, 10, 1)],
+                                       "subseq": [(4 if dts[1] == "i" else 2) * x for x in _gen_intlist(rng, 0, 2, 3, 1)],
+                                       "scaled_by": SCALE, "dts": dts})
+        c = rng.randint(1, 3)
+        M = _gen_scaled(rng, "f", (rng.randint(1, 5), c), 0, 2)
+        _oracle_locate(ctx, "fvals", {"m": M, "v": _gen_scaled(rng, "f", (rng.randint(0, 3),), 0, 2), "scaled_by": SCALE})
+        _oracle_locate(ctx, "frows", {"matrix": M, "row": list(rng.choice(M)) if rng.random() < 0.6 else
+                                      _gen_scaled(rng, "f", (c,), 0, 2), "scaled_by": SCALE})
+        _oracle_locate(ctx, "funique", {"y": _gen_scaled(rng, "f", (rng.randint(2, 8),), -2, 3),
+                                        "tol": list(rng.choice([(1, 1000000), (0, 1), (1, 4), (1, 2)])), "scaled_by": SCALE})
+        ctx.count("oracle:locate-float", 6)
         if len(ctx.failures) > 40:
             break
     # one representative per family is enough for the report
